@@ -713,6 +713,8 @@ class CellsImpl(*_cells_impl_base):
 
     def on_inherit(self, updater, bases):
         self.model.clear_obj(self)
+        # The ItemSpaces have copied the formula
+        self.parent.clear_subs_rootitems()
         self.formula = bases[0].formula
         self.allow_none = bases[0].allow_none
         self.is_cached = bases[0].is_cached
